@@ -247,9 +247,15 @@ def quiet():
         logging.disable(logging.NOTSET)
 
 
+COV_HITS = set()      # (file under phylib/, line) executed by the real code during this run (harness/codecov.py)
+
+
 def call_impl(fn, case):
     """Run fn(case) on the real code; exceptions become {'raised': type, 'msg': ...}."""
     import warnings
+    if os.environ.get('VERIF_CODECOV', '1') != '0':
+        from . import codecov
+        codecov.start(REPO)
     try:
         with quiet(), warnings.catch_warnings():
             warnings.simplefilter('ignore')
@@ -278,7 +284,19 @@ def _pool_call(args):
     modname, fname, case = args
     import importlib
     mod = importlib.import_module(modname)
-    return call_impl(getattr(mod, fname), case)
+    r = call_impl(getattr(mod, fname), case)
+    if os.environ.get('VERIF_CODECOV', '1') != '0':
+        from . import codecov
+        new = codecov.drain()
+        if new:
+            r = dict(r, _cov=new)
+    return r
+
+
+def _take_cov(r):
+    if isinstance(r, dict) and '_cov' in r:
+        COV_HITS.update(tuple(x) for x in r.pop('_cov'))
+    return r
 
 
 def run_impl_many(modname, fname, cases, workers=None, chunksize=None, timeout=1800):
@@ -297,7 +315,7 @@ def run_impl_many(modname, fname, cases, workers=None, chunksize=None, timeout=1
                                     initializer=_pool_init) as ex:
             cs = chunksize or max(1, len(cases) // (workers * 8))
             for i, r in enumerate(ex.map(_pool_call, args, chunksize=cs, timeout=timeout)):
-                out[i] = r
+                out[i] = _take_cov(r)
     except (cf.process.BrokenProcessPool, cf.TimeoutError) as e:
         # find the culprit one by one
         for i, a in enumerate(args):
@@ -305,7 +323,7 @@ def run_impl_many(modname, fname, cases, workers=None, chunksize=None, timeout=1
                 continue
             try:
                 with cf.ProcessPoolExecutor(max_workers=1, mp_context=ctx) as ex:
-                    out[i] = ex.submit(_pool_call, a).result(timeout=900)
+                    out[i] = _take_cov(ex.submit(_pool_call, a).result(timeout=900))
             except cf.TimeoutError:
                 out[i] = {'raised': 'Timeout', 'msg': 'no answer within 900 s', 'where': ''}
             except Exception as e2:
@@ -430,6 +448,13 @@ class Report:
             input_distribution=dict(sorted(self.hist.items())),
             known_findings_hit=self.known_hits,
         )
+        if os.environ.get('VERIF_CODECOV', '1') != '0':
+            try:
+                from . import codecov
+                COV_HITS.update(codecov.drain())
+                cov['code_coverage'] = codecov.report(self.pid, COV_HITS, REPO)
+            except Exception as e:  # a measurement, never a reason to fail a run
+                cov['code_coverage'] = 'not measured: %r' % e
         cov.update(self.extra)
         ev = dict(property_id=self.pid, tier=self.tier, seed=self.seed, level='proof',
                   coverage=cov, assumptions=self.assumptions,
